@@ -5,6 +5,7 @@ package verifharness
 import (
 	"encoding/json"
 	"fmt"
+	"math"
 	"sort"
 	"strings"
 	"time"
@@ -145,7 +146,7 @@ func (h4) Gen(prop, tier string, r *simrt.Rng) (any, simrt.Config) {
 		n, longest = 2, f1
 		c.FnNs = nil
 		for i, m := 0, r.Intn(4); i < m; i++ {
-			c.FnNs = append(c.FnNs, simrt.Pick(r, int64(0), f0/3+7, f0+11, f1/2+5, f1+13))
+			c.FnNs = append(c.FnNs, simrt.Pick(r, int64(0), f0/3+7, f0/3+7, f0/4+3, f0+11, f1+13))
 		}
 		c.Ops = []H4Op{{Kind: "restart", AfterNs: d1 + f1*int64(1+r.Intn(3)) + int64(r.Intn(int(f1)))},
 			{Kind: simrt.Pick(r, "stop", "cancel"), AfterNs: d1 / 2}}
@@ -329,12 +330,16 @@ func (h h4) Run(env *Env, cfg any) {
 	// Restart moves back to the first schedule: once a Restart made after Start has had time to be handled (the
 	// function in flight and a few pending ticks: the runner handles one event at a time), and until the second
 	// schedule's start delay has passed again, every invocation is the first schedule's
-	if len(c.Schedules) > 1 && sh.startSeq > 0 {
-		var maxFreq int64
-		for _, sc := range c.Schedules {
-			maxFreq = max(maxFreq, sc.FreqNs)
-		}
-		slack := 4*(fnMax+maxFreq) + int64(stats.Stalls)*(int64(max(env.SimCfg.StallMaxMs, 0))*ms+ms)
+	// (Only where the callback takes less than half of the shortest period: then the loop is back in its select, with
+	// no tick ready, before the next tick is due, and a pending Restart is the only thing it can take. With a callback
+	// as slow as a tick some tick is ready at every pass, Go's select chooses among the ready cases at random, and a
+	// Restart can lose that draw any number of times - found by the last thorough soak, 1 run in 1.7 million.)
+	var minFreq, maxFreq int64 = math.MaxInt64, 0
+	for _, sc := range c.Schedules {
+		minFreq, maxFreq = min(minFreq, sc.FreqNs), max(maxFreq, sc.FreqNs)
+	}
+	if len(c.Schedules) > 1 && sh.startSeq > 0 && 2*fnMax < minFreq {
+		slack := fnMax + maxFreq + int64(stats.Stalls)*(int64(max(env.SimCfg.StallMaxMs, 0))*ms+ms)
 		for _, ro := range restarts {
 			if ro.CallNs < sh.startNs || (endNs >= 0 && ro.CallNs >= endNs) {
 				continue
